@@ -798,25 +798,36 @@ impl<'a> ArxmlParser<'a> {
                 regex,
                 max_length,
             } => {
-                if max_length.is_some() && trimmed_input.len() > max_length.unwrap() {
+                // some of the patterns (e.g. revision labels) allow arbitrary text, so escaped characters must be decoded first
+                let unescaped_storage;
+                let checked_input = if trimmed_input.contains(&b'&') {
+                    if let Ok(utf8string) = std::str::from_utf8(trimmed_input) {
+                        unescaped_storage = self.unescape_string(utf8string)?.into_owned();
+                        unescaped_storage.as_bytes()
+                    } else {
+                        trimmed_input
+                    }
+                } else {
+                    trimmed_input
+                };
+                if max_length.is_some() && checked_input.len() > max_length.unwrap() {
                     self.optional_error(ArxmlParserError::StringValueTooLong {
-                        value: String::from_utf8_lossy(trimmed_input).to_string(),
+                        value: String::from_utf8_lossy(checked_input).to_string(),
                         length: max_length.unwrap(),
                     })?;
                 }
-                if !check_fn(trimmed_input) {
+                if !check_fn(checked_input) {
                     self.optional_error(ArxmlParserError::RegexMatchError {
-                        value: String::from_utf8_lossy(trimmed_input).to_string(),
+                        value: String::from_utf8_lossy(checked_input).to_string(),
                         regex: (*regex).to_string(),
                     })?;
                 }
-                // text with regex pattern validation doesn't need unescaping - none of the regexes will allow any of the the escaped chars
-                match std::str::from_utf8(trimmed_input) {
+                match std::str::from_utf8(checked_input) {
                     Ok(utf8string) => Ok(CharacterData::String(utf8string.to_owned())),
                     Err(err) => {
                         self.optional_error(ArxmlParserError::Utf8Error { source: err })?;
                         Ok(CharacterData::String(
-                            String::from_utf8_lossy(trimmed_input).into_owned(),
+                            String::from_utf8_lossy(checked_input).into_owned(),
                         ))
                     }
                 }
